@@ -5,3 +5,65 @@ From CiwV Require Import Sx Acc.C07.
 Theorem C07_sound : forall tr st, C07.acc tr = Accept st -> C07.P_C07 tr.
 Proof. exact C07.C07_sound. Qed.
 Print Assumptions C07_sound.
+
+(* ---- T2: the engine model (coq/Engine, tied to /repo by the stepwise correspondence check K2) blocks exactly when the
+   destination is full, never leaves anybody blocked while there is space, and serves blocked queues first-in first-out ---- *)
+From Coq Require Import ZArith List.
+From CiwV.Engine Require Import State Engine Codec.
+From CiwV.Inv Require Import Frame Conserve Capacity Blocking.
+Open Scope Z_scope.
+
+(* one executed event / any number of events, for every configuration, every state satisfying the invariant, every oracle *)
+Theorem event_step_blk : forall cf s s', Blocking.Blk cf s -> Engine.event_step cf s = Ok (tt, s') -> Blocking.Blk cf s'.
+Proof. exact Blocking.event_step_blk. Qed.
+Print Assumptions event_step_blk.
+Theorem run_many_blk : forall cf ds s s', Blocking.Blk cf s -> Codec.run_many cf s ds = Ok s' -> Blocking.Blk cf s'.
+Proof. exact Blocking.run_many_blk. Qed.
+Print Assumptions run_many_blk.
+
+(* in the words of the property: the counter is the length; nobody is left blocked to a node that has space; nobody is ever
+   blocked to a node without a capacity limit *)
+Theorem blk_means : forall cf s, Blocking.Blk cf s -> forall k nd, nth_error (nodes s) k = Some nd ->
+  n_lenbq nd = Z.of_nat (length (n_bq nd)) /\
+  (forall c, Capacity.cap_of cf (Z.of_nat k + 1) = Some c -> n_pop nd < c -> n_bq nd = nil) /\
+  (Capacity.cap_of cf (Z.of_nat k + 1) = None -> n_bq nd = nil).
+Proof. exact Blocking.blk_means. Qed.
+Print Assumptions blk_means.
+
+(* first-in first-out, per event: either blocked queues only lose heads, or exactly one customer of the active node joins the END of
+   the queue of a node that is full, and no population and no other queue changes *)
+Theorem event_step_fifo : forall cf s s', Blocking.Blk cf s -> Engine.event_step cf s = Ok (tt, s') ->
+  Blocking.heads_only s s' \/ Blocking.one_blocked cf s s'.
+Proof. exact Blocking.event_step_fifo. Qed.
+Print Assumptions event_step_fifo.
+
+(* who is blocked: every entry (from, y) of the blocked queue of node k+1 is a customer of node `from`, flagged blocked, with destination
+   k+1; every customer flagged blocked is in exactly one blocked queue, once *)
+Theorem run_many_who : forall cf ds s s', Blocking.Who cf s -> Codec.run_many cf s ds = Ok s' -> Blocking.Who cf s'.
+Proof. exact Blocking.run_many_who. Qed.
+Print Assumptions run_many_who.
+Theorem who_means : forall cf s, Blocking.Who cf s ->
+  (forall k nd from y, nth_error (nodes s) k = Some nd -> In (from, y) (n_bq nd) ->
+     exists x ndf, Engine.find_ind y (inds s) = Some x /\ i_blocked x = true /\ i_dest x = Some (Z.of_nat k + 1) /\
+                   1 <= from /\ nth_error (nodes s) (Z.to_nat (from - 1)) = Some ndf /\ In y (Engine.all_individuals ndf)) /\
+  (forall x, In x (inds s) -> i_blocked x = true -> exists k nd from, nth_error (nodes s) k = Some nd /\ In (from, i_id x) (n_bq nd)) /\
+  (forall k nd, nth_error (nodes s) k = Some nd -> NoDup (map snd (n_bq nd))) /\
+  (forall k1 nd1 f1 k2 nd2 f2 y, nth_error (nodes s) k1 = Some nd1 -> In (f1, y) (n_bq nd1) ->
+                                  nth_error (nodes s) k2 = Some nd2 -> In (f2, y) (n_bq nd2) -> k1 = k2 /\ f1 = f2) /\
+  NoDup (map i_id (inds s)).
+Proof. exact Blocking.who_means. Qed.
+Print Assumptions who_means.
+
+(* all of it over whole runs *)
+Theorem engine_blocking : forall cf ds s s', Blocking.Blk cf s -> Blocking.Who cf s -> Codec.run_many cf s ds = Ok s' ->
+  Blocking.Blk cf s' /\ Blocking.Who cf s' /\ Blocking.fifo s s'.
+Proof. exact Blocking.engine_blocking. Qed.
+Print Assumptions engine_blocking.
+
+(* the executable tests used by the correspondence check on the real engine's snapshots are sound for the invariants *)
+Theorem blk_b_sound : forall cf s, Blocking.blk_b cf s = true -> Blocking.Blk cf s.
+Proof. exact Blocking.blk_b_sound. Qed.
+Print Assumptions blk_b_sound.
+Theorem who_b_sound : forall cf s, Blocking.who_b cf s = true -> Blocking.Who cf s.
+Proof. exact Blocking.who_b_sound. Qed.
+Print Assumptions who_b_sound.
